@@ -279,6 +279,19 @@ func (n *c20Model) replayHeld(held []c20Held, now int64, v *c20Verdict) {
 	seen := map[string]bool{}
 	relay := map[string]bool{}
 	var perm func(k int)
+	// a message held twice is replayed twice; the second replay is a duplicate
+	// (equal timestamp, same content) and cannot change anything
+	{
+		dup := map[string]bool{}
+		var uniq []c20Held
+		for _, h := range held {
+			if !dup[h.id] {
+				dup[h.id] = true
+				uniq = append(uniq, h)
+			}
+		}
+		held = uniq
+	}
 	idx := make([]int, len(held))
 	for i := range idx {
 		idx[i] = i
@@ -316,11 +329,27 @@ func (n *c20Model) replayHeld(held []c20Held, now int64, v *c20Verdict) {
 			idx[k], idx[i] = idx[i], idx[k]
 		}
 	}
-	if len(held) > 5 {
-		held = held[:5] // never reached within the explored depths; keeps 5! bounded
-		idx = idx[:5]
+	if len(idx) <= 5 {
+		perm(0)
+		return
 	}
-	perm(0)
+	// More than five distinct held messages: 6! orders and up are not worth
+	// enumerating. The order only matters between two valid updates of one
+	// direction with equal timestamps and different content, which no alphabet
+	// contains; ascending and descending timestamp order are evaluated.
+	sort.SliceStable(idx, func(a, b int) bool { return c20HeldTS(held[idx[a]]) < c20HeldTS(held[idx[b]]) })
+	apply()
+	for i, j := 0, len(idx)-1; i < j; i, j = i+1, j-1 {
+		idx[i], idx[j] = idx[j], idx[i]
+	}
+	apply()
+}
+
+func c20HeldTS(h c20Held) uint32 {
+	if u, ok := h.msg.Decoded.(*lnwire.ChannelUpdate1); ok {
+		return u.Timestamp
+	}
+	return 0
 }
 
 func (m *c20Model) stepCU(msg *c20Msg, u *lnwire.ChannelUpdate1, now int64) *c20Verdict {
@@ -466,5 +495,63 @@ func (m *c20Model) stepBlock(now int64) *c20Verdict {
 	if len(v.Finals) == 0 {
 		v.Finals, v.After = [][]string{cur.render()}, []*c20Model{cur}
 	}
+	return v
+}
+
+// stepBurst judges several messages handed over back to back: the acceptable
+// outcomes are those of every serial order (lnd processes them concurrently; the
+// validation barrier and the per-channel mutex promise serialisability, not an order).
+func (m *c20Model) stepBurst(msgs []*c20Msg, now int64) *c20Verdict {
+	v := &c20Verdict{Why: "burst"}
+	seen := map[string]bool{}
+	relay := map[string]bool{}
+	var whys []string
+	var rec func(cur *c20Model, rest []*c20Msg)
+	rec = func(cur *c20Model, rest []*c20Msg) {
+		if len(rest) == 0 {
+			r := cur.render()
+			k := strings.Join(r, "\n") + "|" + cur.key()
+			if !seen[k] {
+				seen[k] = true
+				v.Finals = append(v.Finals, r)
+				v.After = append(v.After, cur)
+			}
+			return
+		}
+		for i := range rest {
+			sub := cur.step(rest[i], now)
+			if len(whys) < len(msgs) {
+				whys = append(whys, sub.Why)
+			}
+			if sub.Valid {
+				if sub.Suppressed != "" {
+					v.Suppressed = sub.Suppressed
+				}
+				for _, r := range sub.Relayable {
+					if !relay[string(r)] {
+						relay[string(r)] = true
+						v.Relayable = append(v.Relayable, r)
+					}
+				}
+			}
+			next := append(append([]*c20Msg{}, rest[:i]...), rest[i+1:]...)
+			for _, a := range sub.After {
+				rec(a, next)
+			}
+			if sub.Valid && sub.Suppressed != "" {
+				// a documented spam defence may drop this one message
+				rec(cur, next)
+			}
+		}
+	}
+	rec(m, msgs)
+	pre := strings.Join(m.render(), "\n")
+	v.Valid = true
+	for _, f := range v.Finals {
+		if strings.Join(f, "\n") == pre {
+			v.Valid = false
+		}
+	}
+	v.Why = "burst[" + strings.Join(whys, ",") + "]"
 	return v
 }
